@@ -780,8 +780,20 @@ class revert_intro(Method):
 
         pt = state.get_proof_item(prevs[0])
         assert pt.rule == 'assume', "revert_intro: prev is not assume"
-        state.set_line(id, 'sorry', th=Thm.implies_intr(pt.th.prop, cur_item.th))
+
+        # The goal must be closed by the next line, an intros step that
+        # discharges the assumption, and no other line may use the assumption
+        # (it is removed below).
         item = state.get_proof_item(id.incr_id(1))
+        assert item.rule == 'intros' and prevs[0] in item.prevs and item.prevs[-1] == id, \
+            "revert_intro: the assumption is not introduced by the next line"
+
+        def is_used(prf):
+            return any((other is not item and prevs[0] in other.prevs) or
+                       (other.subproof is not None and is_used(other.subproof)) for other in prf.items)
+        assert not is_used(state.prf.get_parent_proof(id)), "revert_intro: the assumption is used elsewhere"
+
+        state.set_line(id, 'sorry', th=Thm.implies_intr(pt.th.prop, cur_item.th))
         state.set_line(id.incr_id(1), item.rule, args=item.args,
                        prevs=[p for p in item.prevs if p != prevs[0]], th=item.th)
         state.remove_line(prevs[0])
